@@ -180,6 +180,17 @@ class C04(Prop):
             if obs['kind'] == 'errsend':
                 if not obs['reply_ascii_line']:
                     return 'error reply is not one newline-free ASCII line'
+            # wire-format conformance of what the strict decoders ACCEPT as a response
+            if obs['kind'] == 'resp' and case['proto'] in ('v1', 'v2'):
+                try:
+                    p = json.loads(bytes(case['msg']).decode('utf-8', 'surrogatepass'))
+                except Exception:
+                    p = None
+                if isinstance(p, dict):
+                    if case['proto'] == 'v1' and not ('result' in p and 'error' in p and (p['result'] is None or p['error'] is None)):
+                        return 'the 1.0 decoder accepted a response that does not carry result and error with one of them null'
+                    if case['proto'] == 'v2' and (p.get('jsonrpc') != '2.0' or ('result' in p) == ('error' in p)):
+                        return 'the 2.0 decoder accepted a response without "jsonrpc":"2.0" or without exactly one of result/error'
             return None
         if k == 'detect':
             if isinstance(obs['proto'], str) and obs['proto'].startswith('escape'):
